@@ -17,6 +17,7 @@ RULE = (
 ASSUMPTIONS = [
     "counting convention as stated by the property: placement and replacement instructions of executed packages plus failed cancel/update reports and failed cancel parts of replaces",
     "the hourly counters restart at the first non-forced request that reaches the client control in a new clock hour (a request refused earlier by a trading control does not reach it)",
+    "12% World B live sessions: the shadow is fed from add_transaction (hour restart and blocking verdict under interleavings); with two clients (part of the sessions, a strategy each, one execution object) every client's total is reconciled at the end with its own answered calls (C18.isolation); pool threads may be suspended between two instruction reports of a reply (yield_pct)",
 ]
 COMPONENTS = dict(common.COMPONENTS_A, world_C=["real: MaxTransactionCount.add_transaction executed by 2-3 real threads pre-empted after every bytecode instruction (sys.settrace opcode events), switch order from the seeded tape", "stub: the control's threading.Lock -> cooperative lock owned by the scheduler"])
 MONITORS = [LedgerMonitor, TransactionMonitor]
@@ -36,6 +37,30 @@ def generate(rng, i, tier):
         sc["idle_ticks"] = True
         sc["tick_seconds"] = rng.choice([0.25, 600.0, 1800.0, 3600.0])
         sc["live_c18"] = True
+        import random
+
+        side = random.Random("c18-live|%d" % rng.getrandbits(32))
+        if side.random() < 0.5 and len(sc["strategies"]) == 1:
+            # a second strategy with requests of its own (so that two clients can be busy at the same time)
+            sc["strategies"].append({"name": "L1", "markets": list(range(len(sc["markets"]))), "client": 0})
+            mix2 = {"p_act": 0.9, "p_place": 0.5, "w_cancel": 2, "w_update": 1, "w_replace": 2, "packages": True, "p_sp": 0.0, "p_fok": 0.0}
+            for mk in sc["markets"]:
+                livegen.gen_actions(side, mk, "L1", mix2)
+        if side.random() < 0.6 and len(sc["strategies"]) >= 2:
+            # two clients (one execution object, one thread pool): the strategies trade through a client each
+            sc["clients"].append({"limit": side.choice([0, 1, 3, 5, 20, None])})
+            for k, st in enumerate(sc["strategies"]):
+                st["client"] = k % 2
+            # (World B models one order stream: bets of other instances would be adopted under an arbitrary client)
+            sc["exchange_events"] = [e for e in sc["exchange_events"] if e.get("type") != "sibling_bet"]
+        if side.random() < 0.5:
+            sc["yield_pct"] = side.choice([30, 70])  # pool threads may be suspended inside the processing of a reply
+        if len(sc["clients"]) == 2 and side.random() < 0.5:
+            # directed: both clients busy with requests that fail per instruction, replies processed in overlapping fashion
+            sc["yield_pct"] = 70
+            sc["cfg"]["max_workers"] = 32
+            sc["faults"] = {str(n): {"reports": [side.choice(["SUCCESS", "FAILURE:ERROR_IN_ORDER", "FAILURE:BET_ACTION_ERROR"]) for _ in range(3)]} for n in range(2, 30) if side.random() < 0.7}
+            sc["directed"] = "two-clients-failing-instructions-overlapping-replies"
         return sc
     if rng.random() < 0.15:
         # World C: opcode-level pre-emption of concurrent add_transaction calls
@@ -64,9 +89,9 @@ def generate(rng, i, tier):
 def execute(scenario):
     if scenario.get("live_c18"):
         from .. import live
-        from ..oracles.transactions import LiveTransactionMonitor
+        from ..oracles.transactions import LiveTransactionMonitor, LiveClientCounts
 
-        return live.run_scenario(scenario, [LiveTransactionMonitor], owner=ID)
+        return live.run_scenario(scenario, [LiveTransactionMonitor, LiveClientCounts], owner=ID)
     if scenario.get("world") == "C":
         from .. import opcode
 
